@@ -23,6 +23,7 @@ import OpenFGAVerif.Gen.Panics
 import OpenFGAVerif.Gen.Release
 import OpenFGAVerif.Proofs.CheckV1Termination
 import OpenFGAVerif.Proofs.KeysPb
+import OpenFGAVerif.Props.ReqValidate
 
 namespace OpenFGAVerif.C19
 open OpenFGAVerif.Model.Panics
